@@ -118,6 +118,13 @@ def make_ecl_corpus(d, tier):
 
 def signature(stderr):
     """(kind, first frames inside /repo) from a sanitizer / libFuzzer report"""
+    ma = re.search(r"([\w.]+):\d+: ([^\n]*?): Assertion `([^\n]*?)' failed", stderr)
+    if ma:
+        # a failed assert() looks different under libFuzzer (ASan ABRT report) and under the probe (plain abort):
+        # build the signature from the assert message: expression, function, file
+        fn = re.sub(r"^(static |virtual |const )*(void|bool|int|double|auto|[\w:<>]+[&*]?) +(?=[\w:]+\()", "", ma.group(2).strip())
+        fn = re.split(r"[(<]", fn)[0]
+        return "assert:%s|%s@%s" % (ma.group(3)[:60], fn, ma.group(1))
     kind = "unknown"
     m = re.search(r"SUMMARY: (\w+): ([\w-]+)", stderr)
     if m:
@@ -151,16 +158,20 @@ READER_FILES = ("ESmry.cpp", "ExtESmry.cpp", "EGrid.cpp", "ERft.cpp", "EInit.cpp
 
 def finding_key(label, sig):
     """key under which a crash signature is looked up in known_findings.jsonl.
-    Deck side: the full signature (sanitizer kind + top two frames inside /repo).
+    Deck side: the call site, i.e. the first frame inside /repo (function@file).
     Result-file side: the readers take counts, indices and sizes from the file without validating them, which
     shows up as dozens of sanitizer kinds per reader; the recorded findings are therefore per reader source file
     (the call site's file), so that a crash in any other file is still reported."""
+    parts = sig.split("|")
     if label == "result-files":
-        parts = sig.split("|")
         if len(parts) > 1 and "@" in parts[1]:
             f = parts[1].split("@")[-1]
             if f in READER_FILES:
                 return "result-file-reader:" + f
+        return sig
+    # deck side: the call site = first frame inside /repo (one missing validation shows up as assert, overflow, ...)
+    if len(parts) > 1 and "@" in parts[1]:
+        return "site:" + parts[1]
     return sig
 
 
@@ -176,7 +187,9 @@ class C20(Check):
             "chunks, shipped and generated result files.  Custom mutator: line/record/keyword/token delete-duplicate-swap-replace "
             "from a dictionary of all deck names and tricky tokens, cut-into-include, splice, 20 % plain byte mutations.  Oracle: "
             "the target returns or the API threw std::exception; sanitizer report, signal, assert, foreign exception or exit() is a "
-            "crash artifact.  Non-trivial execution: the parser returned a Deck / a reader got past the header (counted in the "
+            "crash artifact.  Second line: Hypothesis-generated grammar decks (rewritten layouts, INCLUDE files) and curated complete "
+            "models, 0..3 token/line-level mutations from a dictionary, sent to the ASan+UBSan build of the probe (parse, then "
+            "EclipseState, Schedule, SummaryConfig).  Non-trivial execution: the parser returned a Deck / a reader got past the header (counted in the "
             "target); distinct_nontrivial = coverage-distinct units in the final corpora.")
     ASSUMPTIONS = ["ParseContext actions limited to THROW/WARN/IGNORE (EXIT1 is a deliberate std::exit policy)",
                    "timeout/oom/slow-unit artifacts are load noise, counted but not violations; 'never hangs' is only a 60 s bound",
@@ -185,12 +198,13 @@ class C20(Check):
                   "re-run three times and keyed by sanitizer kind + top frames inside /repo before it is reported.")
     LEVEL_NOTE = "Trusted: clang's sanitizers as the memory-safety/UB oracle. Throughput-limited; state construction is deep and slow."
     TECHNIQUE = "coverage-guided fuzzing (libFuzzer, fork mode) with structure-aware mutator under ASan+UBSan"
-    BUDGET = {"quick": 40, "thorough": 330}     # seconds per target
+    BUDGET = {"quick": 60, "thorough": 600}     # seconds; the three campaigns run side by side     # seconds per target
 
     def binaries(self):
         out = {}
         for name in ("fz_deck", "fz_eclfile"):
             out[name] = build.ensure_single(name, os.path.join(FUZZ, name + ".cpp"), kind="san", fuzzer=True)
+        build.ensure_probe("san", "deck")
         return out
 
     def prepare(self, tier):
@@ -228,6 +242,17 @@ class C20(Check):
         shutil.rmtree(work, ignore_errors=True)
         os.makedirs(work)
 
+        if replay and os.path.basename(replay).startswith("token__"):
+            from checks.c20_token import C20Token
+            case = json.load(open(replay))["case"]
+            build.ensure_probe("san", "deck")
+            fails, v = runner.confirm(C20Token(), case, [], 1)
+            if fails:
+                print("VIOLATION property=%s replay=%s" % (pid, replay))
+                print("  signature:", v.get("key"))
+                return 1
+            print("replay passes: property=%s" % pid)
+            return 0
         if replay:
             base = os.path.basename(replay)
             label = base.split("__")[0]
@@ -263,6 +288,8 @@ class C20(Check):
         corp = {"deck": os.path.join(work, "seed_deck"), "ecl": os.path.join(work, "seed_ecl")}
         nseed = {"deck": make_deck_corpus(corp["deck"], tier), "ecl": make_ecl_corpus(corp["ecl"], tier)}
         budget = int(os.environ.get("VERIF_FUZZ_SECONDS", self.BUDGET[tier]))
+        procs = []
+        nfork = max(2, int(os.environ.get("VERIF_SHARDS", 16)) // len(TARGETS))
         for ti, (label, binname, env, ckind) in enumerate(TARGETS):
             cdir = os.path.join(work, "corpus_" + label)
             adir = os.path.join(work, "art_" + label) + "/"
@@ -270,12 +297,22 @@ class C20(Check):
             os.makedirs(adir)
             cnt = os.path.join(work, "cnt_" + label)
             e = san_env(dict(env, FZ_TMP=work, FZ_COUNTERS=cnt))
-            cmd = [bins[binname], "-fork=16", "-ignore_crashes=1", "-ignore_timeouts=1", "-ignore_ooms=1",
+            cmd = [bins[binname], "-fork=%d" % nfork, "-ignore_crashes=1", "-ignore_timeouts=1", "-ignore_ooms=1",
                    "-max_total_time=%d" % budget, "-seed=%d" % (seed * 100 + ti + 1), "-timeout=60",
                    "-rss_limit_mb=4096", "-malloc_limit_mb=2048", "-max_len=24000", "-artifact_prefix=" + adir,
                    "-print_final_stats=1", cdir, corp[ckind]]
-            with open(os.path.join(work, "log_" + label), "wb") as lf:
-                subprocess.run(cmd, env=e, stdout=lf, stderr=subprocess.STDOUT, cwd=work, timeout=budget + 600)
+            lf = open(os.path.join(work, "log_" + label), "wb")
+            procs.append((subprocess.Popen(cmd, env=e, stdout=lf, stderr=subprocess.STDOUT, cwd=work), lf))
+        for pr, lf in procs:
+            try:
+                pr.wait(timeout=budget + 900)
+            except subprocess.TimeoutExpired:
+                pr.kill()
+            lf.close()
+        for ti, (label, binname, env, ckind) in enumerate(TARGETS):
+            cdir = os.path.join(work, "corpus_" + label)
+            adir = os.path.join(work, "art_" + label) + "/"
+            cnt = os.path.join(work, "cnt_" + label)
             log = open(os.path.join(work, "log_" + label), "rb").read().decode("latin-1")
             execs = 0
             nont = 0
@@ -319,6 +356,35 @@ class C20(Check):
                     labels["flaky-crash-artifacts"] = labels.get("flaky-crash-artifacts", 0) + 1
             for sig, (path, err) in sigs.items():
                 viols.append(((label, binname, env, ckind), path, 3, sig, err))
+        # 2b. token-mutation part: Hypothesis-generated decks/models, token-level mutations, ASan+UBSan probe
+        import multiprocessing as mp
+        os.environ["VERIF_NOBUILD"] = "1"
+        nsh = int(os.environ.get("VERIF_SHARDS", 16))
+        targs = [("checks.c20_token", "C20Token", tier, seed, i, nsh, None) for i in range(nsh)]
+        with mp.get_context("fork").Pool(nsh) as pool:
+            tres = pool.map(runner.run_shard, targs)
+        tm = runner.merge(tres)
+        terr = [r[3] for r in tres if r[3]]
+        if terr:
+            print("HARNESS-ERROR property=%s (token part)\n%s" % (pid, terr[0]))
+            return 2
+        from checks.c20_token import C20Token
+        tchk = C20Token()
+        token_viols = []
+        for r in tres:
+            for item in r[1]:
+                fails, v = runner.confirm(tchk, item["case"], [], 3)
+                if fails == 3:
+                    token_viols.append((item["case"], v))
+                else:
+                    labels["flaky-token-cases"] = labels.get("flaky-token-cases", 0) + 1
+        for k, v in tm["labels"].items():
+            labels[k] = labels.get(k, 0) + v
+        total_execs += tm["evaluations"]
+        nontrivial_execs += sum(v for k, v in tm["labels"].items() if k.startswith("token:stage:") and not k.endswith("rejected-by-parser"))
+        samples.extend({"target": "token-mutation", "case": s_[1]} for s_ in tm["samples"][:2])
+        stats["token_mutation"] = {"evaluations": tm["evaluations"], "distinct": len(tm["fps"]), "time_cap_hit": tm["timed_out"]}
+        token_distinct = len(tm["fps"])
         # 3. verdict
         nviol = 0
         rc = 0
@@ -351,8 +417,23 @@ class C20(Check):
             print("  signature: %s" % sig)
             nviol += 1
             rc = 1
+        for case, v in token_viols:
+            sig = v.get("key") or "crash"
+            if sig in knownsigs:
+                seen_known.add(sig)
+                continue
+            if sig in reported:
+                continue
+            reported.add(sig)
+            dst = os.path.join(outdir, "token__%s.json" % runner.sha(case))
+            with open(dst, "w") as f:
+                json.dump({"property": pid, "case": case, "violation": v}, f, indent=1, default=str)
+            print("VIOLATION property=%s replay=%s" % (pid, dst))
+            print("  signature: %s" % sig)
+            nviol += 1
+            rc = 1
         merged = runner.merge([])
-        merged.update(evaluations=total_execs, fps=set("u%d" % i for i in range(corpus_units)), labels=labels,
+        merged.update(evaluations=total_execs, fps=set("u%d" % i for i in range(corpus_units + token_distinct)), labels=labels,
                       samples=[(str(i), s) for i, s in enumerate(samples)], excluded_known=len(seen_known),
                       regress_replayed=regress_n, shards=16)
         extra = dict(stats)
